@@ -631,7 +631,11 @@ class Oracle:
                 if c[3] != list(ev["args"]): self.flag(K + "wrong-args", f"{where}: handler {lab} got args {c[3]}, published {ev['args']}")
                 if c[4] != exp_kw:
                     extra = set(c[4]) - set(exp_kw)
-                    if extra and extra <= earlier_detail_keys and ev["kwargs"]:
+                    own_unrequested = [k for k in extra if isinstance(c[4][k], dict) and c[4][k].get("$det", {}).get("owner") == lab]
+                    if own_unrequested and H["det"] is None:
+                        self.flag("session.subscribe/unrequested-details", f"{where}: handler {lab} did not ask for event details "
+                                  f"but received them as keyword {own_unrequested}")
+                    elif extra and extra <= earlier_detail_keys and ev["kwargs"]:
                         self.flag(self.P + "shared-kwargs", f"{where}: handler {lab} received keyword(s) {sorted(extra)} "
                                   f"belonging to an earlier handler's details_arg")
                     elif (earlier_details and ev["kwargs"]
@@ -692,6 +696,40 @@ def shrink(ck, ops, fw, key):
     return cur
 
 
+def check_options_grid(ck):
+    """The modelled options normalisation (norm_details / opts_valid / wire_match / wire_retained) and the specification
+    (requested) against the REAL SubscribeOptions + Subscribe.marshal over the whole argument grid."""
+    grid = [{"details": d, "details_arg": da, "match": m, "get_retained": gr}
+            for d in (None, False, True) for da in (None, 3, 4, 0)
+            for m in (None, "exact", "prefix", "wildcard") for gr in (None, True, False)]
+    real = ck.run_impl("wamp_events.py", {"fw": "tx", "cases": [], "opts_grid": grid})["opts"]
+    cases = []
+    for o, r in zip(grid, real):
+        ck.evaluations += 1
+        ck.bump("opts:" + ("raised" if r is None else "ok"))
+        exp = "None" if r is None else f"(Some ({optn(r[0])}, {MATCH[r[1]]}, {optb(r[2])}))"
+        cases.append(f"({coq_subopts(o)}, {exp})")
+        # specification
+        if (r is None) != opts_invalid(o):
+            ck.violation("SubscribeOptions/argument-check", f"SubscribeOptions({o}) " + ("raised" if r is None else "was accepted"),
+                         {"options": o, "real": r}, found_input=True)
+        elif r is not None:
+            want_m = None if o["match"] in (None, "exact") else o["match"]
+            if r[0] != requested(o):
+                ck.violation("SubscribeOptions/details-normalisation",
+                             f"SubscribeOptions(details={o['details']}, details_arg={None if o['details_arg'] is None else KEYS[o['details_arg']]})"
+                             f".details_arg is {None if r[0] is None else KEYS[r[0]] if r[0] >= 0 else '?'}, requested "
+                             f"{None if requested(o) is None else KEYS[requested(o)]}", {"options": o, "real": r}, found_input=True)
+            if (r[1], r[2]) != (want_m, o["get_retained"]):
+                ck.violation("SubscribeOptions/options-on-wire", f"SUBSCRIBE options for {o}: match={r[1]} get_retained={r[2]}",
+                             {"options": o, "real": r}, found_input=True)
+    bad = ck.coq_cases("opts", IMPORTS, "opts_case_ok", cases, ty="opts_case")
+    ck.log(f"options grid: {len(grid)} argument combinations, {len(bad)} model disagreements")
+    for i in bad[:1]:
+        ck.violation("correspondence/SubscribeOptions", "modelled options normalisation and real SubscribeOptions disagree",
+                     {"options": grid[i], "real": real[i]}, found_input=False)
+
+
 def load_corpus():
     out = []
     for p in sorted(glob.glob(os.path.join(vlib.ROOT, "corpus", "C11", "*.json"))):
@@ -708,6 +746,8 @@ def run(ck):
     ck.extra_tb += [
         "modelled, not verified: CPython dict/list semantics (list iterator positions into the live list, f(**d) copying d), "
         "txaio callback ordering (Twisted synchronous; asyncio one loop turn later, gather after its members)",
+        "transport that answers from inside send(): the fake transport delivers the scripted router messages to "
+        "session.onMessage before send() returns, catches what onMessage raises and goes on (as an in-process router link would)",
         "not modelled (never generated): encrypted payloads (enc_algo / payload codec), x_acknowledged_delivery, "
         "check_types wrappers, coroutine handlers, cancelled on_reply futures, request id wrap-around at 2**53, "
         "re-joining a session object after transport loss, falsy handler objects (`if handler.obj`)",
@@ -723,7 +763,10 @@ def run(ck):
     ck.rule.append("random interleavings (seeded) over subscribe(callable)/subscribe(decorated object)/unsubscribe/"
                    "SUBSCRIBED/UNSUBSCRIBED/ERROR/revocation/EVENT(all payload shapes, details)/transport loss; handlers are real "
                    "functions of every signature kind (fixed / *args / **kwargs / both / keyword-only, int or str type hints) "
-                   "subscribed with check_types on or off; steered to keep "
+                   "subscribed with check_types on or off and with every form of SubscribeOptions (none / details None,False,True / "
+                   "details_arg / invalid combination; match, get_retained; per-method and call-level options of the object form); "
+                   "about a quarter of the subscribe / unsubscribe calls get their reply (and possibly an EVENT) delivered from "
+                   "INSIDE transport.send(); the options normalisation is compared on the whole argument grid; steered to keep "
                    "several handlers per subscription id and pending requests alive; each history runs on the real session "
                    "under Twisted and asyncio and in the Gallina model. non-trivial = at least one EVENT reached a "
                    "subscription with >= 1 handler; distinct = distinct (framework, history)")
@@ -732,6 +775,7 @@ def run(ck):
     if not ok:
         raise RuntimeError("SessionSubRun build failed: " + out[-1500:])
 
+    check_options_grid(ck)
     n_hist, maxlen = (1500, 12) if ck.quick() else (8000, 20)
     n_hist = int(os.environ.get("AV_C11_N", n_hist))          # development aid only
     rng = ck.rng("hist")
